@@ -47,6 +47,8 @@ type Config struct {
 	// XRC4 makes the BMC accept the xRC4 confidentiality algorithms (2, 3) in
 	// Open Session; it cannot serve in-session traffic for them.
 	XRC4 bool
+	// RoleXor is XORed into the role byte of RAKP 1 before it enters any hash.
+	RoleXor byte
 }
 
 // Event is one received datagram, as parsed by the BMC.
@@ -416,7 +418,8 @@ func (b *BMC) rakp1(ev *Event, p []byte) []byte {
 	}
 	ev.Accepted = true
 	copy(se.Rm[:], p[8:24])
-	se.Role = p[24]
+	// RoleXor models a peer that hashes another role byte than the one it was sent
+	se.Role = p[24] ^ b.Cfg.RoleXor
 	se.User = append([]byte(nil), p[28:]...)
 	if string(se.User) != b.Cfg.Username {
 		return RMCP(SessHdr(0x13, 0, 0, append([]byte{tag, 0x0d, 0, 0}, LE32(se.ConsoleSID)...)))
